@@ -47,7 +47,9 @@ pub mod shims_nondet {
 
 // (vstd already declares core::time::Duration as an external type)
 pub uninterp spec fn nanos(d: std::time::Duration) -> int;
-//@trusted std::time::Duration: opaque value (only passed through, never computed with in the verified functions)
+#[verifier::external_body]
+pub broadcast proof fn axiom_nanos_nonneg(d: std::time::Duration) ensures #[trigger] nanos(d) >= 0 { }
+//@trusted std::time::Duration: opaque value (only passed through, never computed with in the verified functions); its length in nanoseconds is a non-negative integer
 
 pub assume_specification<T> [std::mem::drop] (_0: T);
 //@trusted std::mem::drop: consumes its argument, no other effect visible to the contracts
